@@ -10,6 +10,8 @@ var Registry = map[string]func(seed int64) *engine.Check{
 	"C04": func(int64) *engine.Check { return C04() },
 	"C05": func(int64) *engine.Check { return C05() },
 	"C07": func(int64) *engine.Check { return C07() },
+	"C16": func(int64) *engine.Check { return C16() },
+	"C08": func(int64) *engine.Check { return C08() },
 	"C11": func(int64) *engine.Check { return C11() },
 	"C12": func(int64) *engine.Check { return C12() },
 	"C13": func(int64) *engine.Check { return C13() },
